@@ -1602,7 +1602,8 @@ impl<'a> Run<'a> {
     /// device writes, the next session must still report the table's count (it either finds the volume dirty and
     /// recounts, or finds it clean together with an information sector that is already up to date).
     fn unmount_crash_points(&mut self, pre: Store, writes: &[(u64, Vec<u8>)]) -> VResult<()> {
-        if writes.is_empty() || writes.len() > 64 {
+        // (on volumes with millions of clusters the recount a dirty mount triggers is legitimately long: skipped there)
+        if writes.is_empty() || writes.len() > 64 || self.geom.clusters > 200_000 {
             return Ok(());
         }
         let mut img = pre;
